@@ -75,10 +75,27 @@ def run(ctx):
                          seed=ctx.seed * 10 + i, timeout=7200)
         ctx.replay(b, bs, opts=dict(cfg=cfg, db='mem' if cfg != 'prune' else 'leveldb', malformed=3 if q else 8, salt=i),
                    par=8 if cfg != 'prune' else 1, timeout=6000)
+    # binding self-test: one flipped verdict in the predicted table must make the replayer disagree
+    bad = json.loads(json.dumps(bs[0]))
+    flipped = False
+    for st in bad['steps']:
+        if st.get('op') == 'Table':
+            for per_root in st['chk']:
+                for cell in per_root:
+                    if cell['rows'] and not flipped:
+                        cell['rows'][-1]['ret'] = not cell['rows'][-1]['ret']
+                        flipped = True
+    n0 = len(ctx.mismatches)
+    ctx.replay(b, [bad], opts=dict(cfg='plain', db='mem', malformed=1, salt=1), par=1, count=False)
+    if not flipped or len(ctx.mismatches) == n0:
+        raise vlib.Broken('binding self-test failed: a corrupted verdict was not detected by the replay')
+    del ctx.mismatches[n0:]
+    ctx.extra['selftest_corrupted_behaviour_detected'] = True
+
     # ---- 4. byte-level classes on larger random trees (sampled)
     tot = dict(samples=0, presentations=0, undecodable=0, per_class={})
     for cfg in ('plain', 'prefix') + (() if q else ('prune',)):
-        st = fuzz(ctx, b, cfg, trees=2 if q else 12, per=10 if q else 120, keys=40 if q else 300)
+        st = fuzz(ctx, b, cfg, trees=3 if q else 12, per=40 if q else 120, keys=40 if q else 300)
         for k in ('samples', 'presentations', 'undecodable'):
             tot[k] += st[k]
         for k, v in st['per_class'].items():
